@@ -58,7 +58,13 @@ fn big_record(identity: usize) -> Enr {
 
 async fn c14_async(ctx: &mut Ctx) {
     let max_nodes = *ctx.tape.pick(&[16usize, 1, 4, 32, 48]);
-    let mut sw = match SWorld::new(0, true, v4_listen(), |b| {
+    // a fifth of the nodes advertise no socket in their own record (started without an external address, or
+    // after the connectivity check revoked it): they answer requests all the same, with that record for distance 0
+    let advertise = ctx.tape.choose(5) != 0;
+    if !advertise {
+        ctx.count("runs_with_unadvertised_local_socket");
+    }
+    let mut sw = match SWorld::new(0, advertise, v4_listen(), |b| {
         b.max_nodes_response(max_nodes).disable_enr_update();
     })
     .await
@@ -165,7 +171,33 @@ async fn c14_async(ctx: &mut Ctx) {
                 _ => 1 + ctx.tape.choose(256) as u64,
             });
         }
-        ctx.ev(format!("t={} FINDNODE {distances:?} from #{requester} id_len={idlen}", now_ms()));
+        // long lists: every distance there is (in some order, with or without 0, duplicates, out-of-range values)
+        if ctx.tape.choose(8) == 0 {
+            let lo = ctx.tape.choose(3) as u64; // 0, 1, 2
+            let hi = 256 - ctx.tape.choose(3).saturating_sub(1) as u64; // 256, 256, 255
+            distances = (lo..=hi).collect();
+            match ctx.tape.choose(4) {
+                0 => distances.reverse(),
+                1 => {
+                    let k = 1 + ctx.tape.choose(200) as usize;
+                    distances.rotate_left(k);
+                }
+                _ => {}
+            }
+            for _ in 0..ctx.tape.choose(4) {
+                let extra = *ctx.tape.pick(&[257u64, 300, 1000, u64::MAX, 0, 256, 128]);
+                let at = ctx.tape.choose(distances.len() as u32 + 1) as usize;
+                distances.insert(at, extra);
+            }
+            ctx.count("findnode_long_lists");
+        }
+        let dshow = if distances.len() > 12 {
+            let inr: BTreeSet<u64> = distances.iter().copied().filter(|d| *d <= 256).collect();
+            format!("[{} entries, {} distinct in range, min {:?} max {:?}, first {:?} last {:?}]", distances.len(), inr.len(), inr.iter().next(), inr.iter().next_back(), distances.first(), distances.last())
+        } else {
+            format!("{distances:?}")
+        };
+        ctx.ev(format!("t={} FINDNODE {dshow} from #{requester} id_len={idlen}", now_ms()));
         sw.emit(HandlerOut::Request(na.clone(), Box::new(Request { id: rid.clone(), body: RequestBody::FindNode { distances: distances.clone() } }))).await;
         sw.settle().await;
         let rest = answer_pings(&mut sw).await;
@@ -179,7 +211,7 @@ async fn c14_async(ctx: &mut Ctx) {
         let requester_eligible = eligible_all.iter().any(|(i, _)| *i == na.node_id);
         let want_local = dset.contains(&0);
         if resps.is_empty() {
-            ctx.fail("c14.findnode-not-answered", format!("FINDNODE {distances:?} got no NODES response"), &[]);
+            ctx.fail("c14.findnode-not-answered", format!("FINDNODE {dshow} got no NODES response"), &[]);
             continue;
         }
         let total = resps.len() as u64;
@@ -240,7 +272,7 @@ async fn c14_async(ctx: &mut Ctx) {
             match table.iter().find(|(i, _)| i == id) {
                 Some((_, stored)) if stored == e && dset.contains(&(log2(&lid.raw(), &id.raw()) as u64)) => {}
                 Some(_) => {
-                    ctx.fail("c14.record-not-at-requested-distance", format!("returned record {} is at log2 distance {} (requested {distances:?}) or differs from the stored record", short(id), log2(&lid.raw(), &id.raw())), &[]);
+                    ctx.fail("c14.record-not-at-requested-distance", format!("returned record {} is at log2 distance {} (requested {dshow}) or differs from the stored record", short(id), log2(&lid.raw(), &id.raw())), &[]);
                 }
                 None => ctx.fail("c14.record-not-in-table", format!("returned record {} is not a table entry", short(id)), &[]),
             }
@@ -279,8 +311,10 @@ async fn c17_async(ctx: &mut Ctx) {
     let min = 2 + ctx.tape.choose(5) as usize;
     let vote_s = *ctx.tape.pick(&[30u64, 120, 8]);
     let advertise = ctx.tape.choose(2) == 0;
-    let nat = ctx.tape.choose(4) == 0;
     let dual = ctx.tape.choose(3) == 0;
+    // the connectivity check (which revokes an elected socket nobody connects to) runs in a quarter of the
+    // single-stack runs and in half of the dual-stack ones, where the other family's tally must survive it
+    let nat = ctx.tape.choose(if dual { 2 } else { 4 }) == 0;
     let listen = if dual { ListenConfig::DualStack { ipv4: Ipv4Addr::new(10, 1, 0, 250), ipv4_port: 9000, ipv6: std::net::Ipv6Addr::new(0x2001, 0, 0, 0, 0, 0, 0, 0xfa), ipv6_port: 9000 } } else { v4_listen() };
     let mut sw = match SWorld::new(0, advertise, listen, |b| {
         b.enr_peer_update_min(min).vote_duration(Duration::from_secs(vote_s)).ping_interval(Duration::from_secs(1)).auto_nat_listen_duration(if nat { Some(Duration::from_secs(20)) } else { None });
@@ -329,10 +363,13 @@ async fn c17_async(ctx: &mut Ctx) {
     let mut last_sock = socks(&sw.d.local_enr());
     let mut last_seq = sw.d.local_enr().seq();
     let mut held: Vec<(RequestId, usize, NodeAddress)> = vec![];
+    let mut held_find: Vec<(RequestId, usize, NodeAddress)> = vec![];
+    let mut voter_seq: BTreeMap<usize, u64> = BTreeMap::new();
     let rounds = 10 + ctx.tape.choose(60);
     let mut socket_updated_events = 0u64;
     let mut changes_to_some = 0u64;
     let mut reachable: BTreeMap<usize, bool> = BTreeMap::new();
+    let mut revoked = (false, false);
     for _ in 0..rounds {
         if ctx.failed() {
             break;
@@ -373,15 +410,38 @@ async fn c17_async(ctx: &mut Ctx) {
                     sw.settle().await;
                 }
             }
+            4 => {
+                // a voter publishes a new record: its next PONG announces the higher sequence number and the node
+                // asks it for the record (FINDNODE [0])
+                let v = *ctx.tape.pick(&voters);
+                *voter_seq.entry(v).or_insert(1) += 1;
+                ctx.fault("voter_updates_its_record");
+            }
+            5 => {
+                // a voter answers a record request of the node with a NODES response (not a vote, and no reason to
+                // treat the votes it cast earlier any differently)
+                if !held_find.is_empty() {
+                    let k = ctx.tape.choose(held_find.len() as u32) as usize;
+                    let (rid, voter, from) = held_find.remove(k);
+                    let rec = peer_enr(voter, voter_seq.get(&voter).copied().unwrap_or(1));
+                    ctx.fault("voter_answers_record_request");
+                    ctx.ev(format!("t={} NODES from #{voter} (its record, seq {})", now_ms(), rec.seq()));
+                    sw.emit(HandlerOut::Response(from, Box::new(Response { id: rid, body: ResponseBody::Nodes { total: 1, nodes: vec![rec] } }))).await;
+                    sw.settle().await;
+                }
+            }
             _ => {}
         }
         sw.settle().await;
         for m in sw.take_in() {
             if let HandlerIn::Request(contact, req) = m {
-                if let (Some(p), RequestBody::Ping { .. }) = (ident_of(&contact.node_id()), &req.body) {
-                    held.push((req.id, p, contact.node_address()));
+                match (ident_of(&contact.node_id()), &req.body) {
+                    (Some(p), RequestBody::Ping { .. }) => held.push((req.id, p, contact.node_address())),
+                    // record requests (FINDNODE [0]) are answered now and then, see above; a request that stays
+                    // unanswered is not modelled further
+                    (Some(p), RequestBody::FindNode { .. }) => held_find.push((req.id, p, contact.node_address())),
+                    _ => {}
                 }
-                // FINDNODE [0] record requests etc. are left unanswered here; their failure is not modelled
             }
         }
         // answer one held PING
@@ -394,7 +454,7 @@ async fn c17_async(ctx: &mut Ctx) {
         let addr = cands[opinion[&voter]];
         let t = now_ms();
         let port = std::num::NonZeroU16::new(addr.port()).unwrap();
-        let resp = Response { id: rid, body: ResponseBody::Pong { enr_seq: 1, ip: addr.ip(), port } };
+        let resp = Response { id: rid, body: ResponseBody::Pong { enr_seq: voter_seq.get(&voter).copied().unwrap_or(1), ip: addr.ip(), port } };
         sw.emit(HandlerOut::Response(from, Box::new(resp))).await;
         sw.settle().await;
         ctx.ev(format!("t={t} PONG from #{voter} ({}) votes {addr}", if outgoing[&voter] { "outgoing" } else { "incoming" }));
@@ -404,10 +464,13 @@ async fn c17_async(ctx: &mut Ctx) {
         reachable.insert(voter, true);
         if outgoing[&voter] && was_reachable {
             votes.insert((voter, addr.is_ipv6()), (addr, t));
-        } else if outgoing[&voter] && dual {
-            incoming_pongs.push((voter, addr, t));
         } else if dual {
             incoming_pongs.push((voter, addr, t));
+            // if this PONG was counted it replaced the voter's earlier vote of that family: that one is no longer
+            // certain to stand either
+            if let Some((old, told)) = votes.remove(&(voter, addr.is_ipv6())) {
+                incoming_pongs.push((voter, old, told));
+            }
         }
         if !outgoing[&voter] {
             ctx.fault("vote_from_incoming_peer");
@@ -428,6 +491,16 @@ async fn c17_async(ctx: &mut Ctx) {
             }
         }
         if sock != last_sock {
+            // an advertised socket that disappears was revoked by the connectivity check (nothing else removes one
+            // here): votes of that family are not counted for hours afterwards, the reference stops following it
+            if last_sock.0.is_some() && sock.0.is_none() {
+                revoked.0 = true;
+                ctx.fault("advertised_socket_revoked_by_connectivity_check");
+            }
+            if last_sock.1.is_some() && sock.1.is_none() {
+                revoked.1 = true;
+                ctx.fault("advertised_socket_revoked_by_connectivity_check");
+            }
             ctx.ev(format!("t={} local record address {:?} -> {:?} (seq {})", now_ms(), last_sock, sock, enr.seq()));
             ctx.count("address_changes");
             if enr.seq() <= last_seq {
@@ -458,9 +531,27 @@ async fn c17_async(ctx: &mut Ctx) {
                 if c1 < min {
                     ctx.fail("c17.moved-by-fewer-than-minimum", format!("address set to {a} backed by {c1} unexpired votes of eligible peers, minimum {min}"), &[]);
                 } else if rival >= threshold && !dual {
-                    // (dual stack: which incoming peers' votes count depends on how many votes were
-                    // missing at the time, so only the minimum clause is checked there)
                     ctx.fail("c17.no-clear-majority", format!("address set to {a} with {c1} votes while a rival has {rival} (needs < {threshold})"), &[]);
+                } else if dual && !(if a.is_ipv6() { revoked.1 } else { revoked.0 }) {
+                    // dual stack: which PONGs of incoming (or just re-connected) peers count depends on how many votes
+                    // were missing at the time, so the tally is known only within bounds: the winner has at most its
+                    // certain plus its possible votes, a rival at least its certain ones (votes of connected outgoing
+                    // peers, always counted). The margin must hold even then.
+                    let slack = 100;
+                    let mut backers: BTreeSet<usize> = votes.iter().filter(|((_, _), (x, tv))| *x == a && tv + vote_s * 1000 + slack > now).map(|((p, _), _)| *p).collect();
+                    backers.extend(incoming_pongs.iter().filter(|(_, x, tv)| *x == a && tv + vote_s * 1000 + slack > now).map(|(p, _, _)| *p));
+                    let c1_ub = backers.len();
+                    let mut rival_lb = 0;
+                    for c in &cands {
+                        if *c != a && c.is_ipv4() == a.is_ipv4() {
+                            rival_lb = rival_lb.max(votes.values().filter(|(x, tv)| x == c && tv + vote_s * 1000 > now + slack).count());
+                        }
+                    }
+                    let thr = ((c1_ub as f64) * 0.7).round() as usize;
+                    ctx.count("dual_stack_margin_checked");
+                    if rival_lb >= thr {
+                        ctx.fail("c17.no-clear-majority", format!("address set to {a} backed by at most {c1_ub} unexpired votes while a rival address holds at least {rival_lb} unexpired votes of connected outgoing peers (needs < {thr})"), &[]);
+                    }
                 }
             }
             last_sock = sock;
@@ -482,7 +573,9 @@ pub fn run_c20(ctx: &mut Ctx) {
 }
 
 async fn c20_async(ctx: &mut Ctx) {
-    let mut sw = match SWorld::new(0, true, v4_listen(), |b| {
+    let dual = ctx.tape.choose(4) == 0;
+    let listen = if dual { ListenConfig::DualStack { ipv4: Ipv4Addr::new(10, 1, 0, 250), ipv4_port: 9000, ipv6: std::net::Ipv6Addr::new(0x2001, 0, 0, 0, 0, 0, 0, 0xfa), ipv6_port: 9000 } } else { v4_listen() };
+    let mut sw = match SWorld::new(0, true, listen, |b| {
         b.disable_enr_update();
     })
     .await
@@ -499,6 +592,51 @@ async fn c20_async(ctx: &mut Ctx) {
         let (_tx, rx) = tokio::sync::mpsc::channel(1);
         sw.events = rx; // the real receiver is dropped
     }
+    // what the node knows about the five requesters beforehand: nothing; a session with the record they
+    // advertise (the source they send from, in dual-stack runs with an IPv6 endpoint as well); a table
+    // entry whose record advertises another port or another address than the one they send from now
+    // (re-mapped by a NAT, moved). The answer belongs to the address the request came from in every case.
+    let mut known: Vec<&str> = vec![];
+    for requester in 8..13usize {
+        let mut spec = peer_spec(requester, 1);
+        let how = match ctx.tape.choose(6) {
+            0 | 1 => "unknown",
+            2 => {
+                if dual {
+                    let mut a = [0u8; 16];
+                    a[0] = 0xfd;
+                    a[15] = requester as u8;
+                    spec.ip6 = Some((a, 9000));
+                }
+                sw.emit(HandlerOut::Established(ident::record(spec), peer_addr(requester), if requester % 2 == 0 { ConnectionDirection::Incoming } else { ConnectionDirection::Outgoing })).await;
+                "session"
+            }
+            3 => {
+                let (ip, port) = spec.ip4.unwrap();
+                spec.ip4 = Some((ip, port + 1 + ctx.tape.choose(3) as u16));
+                let _ = sw.d.add_enr(ident::record(spec));
+                "entry-other-port"
+            }
+            4 => {
+                let (ip, port) = spec.ip4.unwrap();
+                spec.ip4 = Some(([ip[0], ip[1], ip[2] ^ 0x40, ip[3]], port));
+                let _ = sw.d.add_enr(ident::record(spec));
+                "entry-other-ip"
+            }
+            _ => {
+                let _ = sw.d.add_enr(ident::record(spec));
+                "entry"
+            }
+        };
+        if how != "unknown" {
+            ctx.count("talk_requesters_known_beforehand");
+        }
+        known.push(how);
+    }
+    sw.settle().await;
+    let _ = sw.take_in();
+    let _ = sw.take_events();
+    ctx.ev(format!("cfg dual_stack={dual} requesters known as {known:?}"));
     let n = 1 + ctx.tape.choose(if stream_mode == 1 { 150 } else { 25 });
     let shutdown_at = if ctx.tape.choose(3) == 0 { Some(ctx.tape.choose(n + 1)) } else { None };
     ctx.ev(format!("cfg talk_requests={n} stream_mode={stream_mode} shutdown_at={shutdown_at:?}"));
@@ -551,6 +689,24 @@ async fn c20_async(ctx: &mut Ctx) {
             ctx.fault("application_holds_requests");
             ctx.ev(format!("t={} the application holds {} request(s) for {ms}ms", now_ms(), held.len()));
             tokio::time::sleep(std::time::Duration::from_millis(ms)).await;
+        }
+        // the requester of a held request is sometimes banned in the meantime (by the application, or because it
+        // misbehaved in another exchange): the request it was handed is still owed its one response
+        if !held.is_empty() && !shut && ctx.tape.choose(6) == 0 {
+            let i = ctx.tape.choose(held.len() as u32) as usize;
+            let who = *held[i].node_id();
+            let ip = ident_of(&who).map(|p| peer_addr(p).ip());
+            match (ctx.tape.choose(2), ip) {
+                (1, Some(ip)) => {
+                    sw.d.ban_ip(ip, Some(std::time::Duration::from_secs(600)));
+                    ctx.ev(format!("t={} the requester {} of a held request is banned (ip {ip})", now_ms(), short(&who)));
+                }
+                _ => {
+                    sw.d.ban_node(&who, None);
+                    ctx.ev(format!("t={} the requester {} of a held request is banned (node id)", now_ms(), short(&who)));
+                }
+            }
+            ctx.fault("requester_banned_while_request_held");
         }
         let acts = ctx.tape.choose(4);
         for _ in 0..acts {
@@ -633,7 +789,12 @@ async fn c20_async(ctx: &mut Ctx) {
             let rs: Vec<&Response> = responses.iter().filter(|(to, r)| to == na && r.id == *rid).map(|(_, r)| r).collect();
             ctx.count("talk_requests_checked");
             if rs.len() != 1 {
-                ctx.fail("c20.not-exactly-one-response", format!("TALKREQ {} got {} responses", hex::encode(&rid.0), rs.len()), &[]);
+                let elsewhere: Vec<String> = responses.iter().filter(|(to, r)| to != na && r.id == *rid && to.node_id == na.node_id).map(|(to, _)| to.socket_addr.to_string()).collect();
+                ctx.fail(
+                    "c20.not-exactly-one-response",
+                    format!("TALKREQ {} from {} got {} responses at that address{}", hex::encode(&rid.0), na.socket_addr, rs.len(), if elsewhere.is_empty() { String::new() } else { format!(" (and {} addressed to {})", elsewhere.len(), elsewhere.join(", ")) }),
+                    &[],
+                );
                 break;
             }
             let expect: Vec<u8> = app.get(&rid.0).cloned().flatten().unwrap_or_default();
